@@ -20,7 +20,20 @@
     of the failures the abstract engine predicts, two fault streams can make
     any ExecContext fail (I/O error, lock, read-only connection ...): [fs] is
     consumed by the statements of the bodies, [rs] by the four statements of
-    every RestoreFunc; [true] = this ExecContext fails. *)
+    every RestoreFunc; [true] = this ExecContext fails.
+
+    Every session also *reads* the database after its statements
+    (Executor.Replay: [return r.ReadState(ctx)]; NormalizeRealm/NormalizeSchema:
+    InspectRealm/InspectSchema after ApplyChanges; DevLoader: d.inspect after
+    the base files and after every statement of a new file).  That read is an
+    op of the body ([OInspect]); it fails -- although every statement
+    succeeded -- iff the database holds an object whose definition SQLite
+    accepted and Atlas' inspector cannot parse -- or because the read itself
+    is hit by a fault (second component of [fs]) -- ([o_insp = false]: a column
+    [varchar(99999999999999999999)] -> "parse size"; a generated column quoted
+    with brackets; a partial index written with a lower-case [where]), or iff
+    the inspection options are malformed ([--exclude '['] of schema
+    inspect/apply/diff) and there is a table to match them against. *)
 From Coq Require Import List NArith Bool Arith.
 From Atlas Require Import Base.Bytes.
 Import ListNotations.
@@ -38,7 +51,8 @@ Record obj := mkObj {
   o_kind : kind;     (* sqlite_master.type *)
   o_name : bytes;    (* sqlite_master.name *)
   o_tbl  : bytes;    (* sqlite_master.tbl_name *)
-  o_rows : N         (* number of rows (tables only) *)
+  o_rows : N;        (* number of rows (tables only) *)
+  o_insp : bool      (* Atlas' inspector can parse its definition (sqlite_master.sql / PRAGMA table_info) *)
 }.
 Definition db := list obj.
 
@@ -74,6 +88,30 @@ Definition visible_table (o : obj) : bool :=
 (** InspectRealm(ctx, nil).Schemas[0].Tables *)
 Definition inspect_tables (d : db) : list obj := filter visible_table d.
 
+(** What an inspection parses (sql/sqlite/inspect.go inspectTables -> columns,
+    indexes, fks, checks of every table [tablesQuery] returned): the visible
+    tables and the indexes of visible tables.  Views and triggers are not
+    inspected by this build; nothing of a hidden table is. *)
+Definition inspected (o : obj) : bool :=
+  match o_kind o with
+  | KTable => negb (hidden_name (o_name o))
+  | KIndex => negb (hidden_name (o_tbl o))
+  | KView | KTrigger => false
+  end.
+
+(** an inspected object the inspector cannot parse: columns -> "parse size",
+    setGenExpr -> "generation expression ... was not found", addIndexes ->
+    "missing partial WHERE clause" *)
+Definition unreadable (d : db) : bool :=
+  existsb (fun o => inspected o && negb (o_insp o)) d.
+
+(** InspectRealm/InspectSchema with options.  [badopt]: opts.Exclude holds a
+    malformed glob ("["): schema.ExcludeRealm/ExcludeSchema report
+    filepath.ErrBadPattern as soon as there is a table name to match it
+    against (nothing to match: no error). *)
+Definition inspect_fails (badopt : bool) (d : db) : bool :=
+  unreadable d || (badopt && match inspect_tables d with [] => false | _ :: _ => true end).
+
 (** Snapshot's second query (fixes 17b84dd, C14-hidden-table):
       SELECT type, name FROM sqlite_master
       WHERE tbl_name NOT LIKE 'sqlite\_%' ESCAPE '\' AND tbl_name <> 'libsql_wasm_func_table' LIMIT 1
@@ -102,6 +140,15 @@ Definition code_clean (d : db) : bool :=
   | _ :: _ => false
   | [] => match other_objects d with _ :: _ => false | [] => true end
   end.
+
+(** Driver.Snapshot starts with [r, err := d.InspectRealm(ctx, nil); if err != nil
+    { return nil, err }]: a database the inspector cannot read is neither
+    accepted nor reported as "not clean" -- the command fails with the
+    inspector's error, before anything is written. *)
+Inductive verdict := VClean | VNotClean | VInspectErr.
+Definition snapshot (d : db) : verdict :=
+  if unreadable d then VInspectErr
+  else if code_clean d then VClean else VNotClean.
 
 (** [clean] as the property means it: the database contains nothing -- nothing
     but bookkeeping of the engine, which no statement can remove
@@ -133,7 +180,11 @@ Inductive stmt :=
 | SDropView      (v : bytes)
 | SDropIndex     (i : bytes)
 | SInsert        (t : bytes)     (* INSERT INTO t (id, v) VALUES (1, 'x')  -- unique id *)
-| SBad.                          (* not SQL at all *)
+| SBad                           (* not SQL at all *)
+(* accepted by SQLite, not parsable by Atlas' inspector: *)
+| SCreateTableU  (n : bytes)     (* CREATE TABLE n (id INTEGER PRIMARY KEY, v varchar(99999999999999999999))
+                                    | CREATE TABLE n (id INTEGER PRIMARY KEY, v TEXT, [g] INT AS (id + 1)) *)
+| SCreateIndexU  (i t : bytes).  (* CREATE INDEX i ON t (v) where v > 'a' *)
 
 Definition has (k : kind) (n : bytes) (d : db) : bool :=
   existsb (fun o => kind_eqb (o_kind o) k && bytes_eqb (o_name o) n) d.
@@ -144,7 +195,7 @@ Definition name_used (n : bytes) (d : db) : bool :=
 
 Definition set_rows (t : bytes) (r : N) (d : db) : db :=
   map (fun o => if kind_eqb (o_kind o) KTable && bytes_eqb (o_name o) t
-                then mkObj (o_kind o) (o_name o) (o_tbl o) r else o) d.
+                then mkObj (o_kind o) (o_name o) (o_tbl o) r (o_insp o) else o) d.
 
 Definition rows_of (t : bytes) (d : db) : option N :=
   match find (fun o => kind_eqb (o_kind o) KTable && bytes_eqb (o_name o) t) d with
@@ -156,13 +207,13 @@ Definition rows_of (t : bytes) (d : db) : option N :=
 Definition exec_stmt (s : stmt) (d : db) : option db :=
   match s with
   | SCreateTable n =>
-      if name_used n d then None else Some (d ++ [mkObj KTable n n 0])
+      if name_used n d then None else Some (d ++ [mkObj KTable n n 0 true])
   | SCreateIndex i t =>
-      if has KTable t d && negb (name_used i d) then Some (d ++ [mkObj KIndex i t 0]) else None
+      if has KTable t d && negb (name_used i d) then Some (d ++ [mkObj KIndex i t 0 true]) else None
   | SCreateView v =>
-      if name_used v d then None else Some (d ++ [mkObj KView v v 0])
+      if name_used v d then None else Some (d ++ [mkObj KView v v 0 true])
   | SCreateTrigger g t =>
-      if has KTable t d && negb (has KTrigger g d) then Some (d ++ [mkObj KTrigger g t 0]) else None
+      if has KTable t d && negb (has KTrigger g d) then Some (d ++ [mkObj KTrigger g t 0 true]) else None
   | SDropTable t =>
       if has KTable t d then Some (filter (fun o => negb (bytes_eqb (o_tbl o) t)) d) else None
   | SDropView v =>
@@ -177,11 +228,19 @@ Definition exec_stmt (s : stmt) (d : db) : option db :=
       | _ => None
       end
   | SBad => None
+  | SCreateTableU n =>
+      if name_used n d then None else Some (d ++ [mkObj KTable n n 0 false])
+  | SCreateIndexU i t =>
+      if has KTable t d && negb (name_used i d) then Some (d ++ [mkObj KIndex i t 0 false]) else None
   end.
 
 (** ** a session: Snapshot -> body -> restore (deferred) *)
 Inductive op :=
 | OExec (m : nat) (s : stmt)   (* one ExecContext; [m] names the statement in observations *)
+| OInspect (m : nat) (badopt : bool)
+                               (* a read of the state: r.ReadState / InspectRealm / InspectSchema /
+                                  DevLoader.inspect / Pending's CheckClean; [m] = the statement it follows (0: none);
+                                  [badopt]: its options carry a malformed exclude pattern *)
 | ORestore.                    (* LoadChanges: restore(ctx) before each checkpoint file *)
 Definition body := list op.
 
@@ -190,12 +249,26 @@ Inductive event :=
 | ERestore (k : nat)             (* the RestoreFunc ran; [k] of its 4 statements succeeded *)
 | EDirWrite.                     (* Planner.WritePlan/WriteCheckpoint: the migration directory is written *)
 
-Inductive outcome := OOk | ORefused | OFail (m : nat) | ORestoreFail.
+(** [OInspectFail m]: every statement so far succeeded, the inspection after
+    statement [m] failed.  [OSnapshotFail]: Snapshot's own inspection failed
+    (nothing was written, no RestoreFunc exists). *)
+Inductive outcome := OOk | ORefused | OFail (m : nat) | ORestoreFail | OInspectFail (m : nat) | OSnapshotFail.
 
 Definition pop (fs : list bool) : bool * list bool :=
   match fs with [] => (false, []) | b :: t => (b, t) end.
 
-(** Two fault streams: [fs] is popped by every ExecContext of a body, [rs] by
+(** The faults of the bodies: one stream for the ExecContext calls, one for the
+    reads of the state (a read can fail for reasons that have nothing to do
+    with what the database holds: I/O error, lost connection, cancelled
+    context between the last statement and the inspection). *)
+Definition faults := (list bool * list bool)%type.
+Definition pop_exec (f : faults) : bool * faults :=
+  let '(b, t) := pop (fst f) in (b, (t, snd f)).
+Definition pop_read (f : faults) : bool * faults :=
+  let '(b, t) := pop (snd f) in (b, (fst f, t)).
+Definition no_faults : faults := ([], []).
+
+(** The fault streams: [fs] = (ExecContext calls of a body, reads of a body), [rs] =
     every statement of the RestoreFunc ([true] = this ExecContext fails: I/O
     error, lock, read-only connection ...).  The RestoreFunc stops at its first
     failing statement; the database is emptied by its second one. *)
@@ -211,11 +284,12 @@ Definition run_restore (rs : list bool) (d : db) : nat * db * list bool :=
 
 Definition restore_done (k : nat) : bool := 4 <=? k.
 
-Inductive bres := BOk | BFail (m : nat) | BRestoreFail.
+Inductive bres := BOk | BFail (m : nat) | BRestoreFail | BInspectFail (m : nat).
 
-(** The statements of the body, in order, until one fails. *)
-Fixpoint run_body (b : body) (fs rs : list bool) (d : db)
-  : bres * db * list bool * list bool * list event :=
+(** The statements and reads of the body, in order, until one fails.  A read
+    is no event: it does not reach the database. *)
+Fixpoint run_body (b : body) (fs : faults) (rs : list bool) (d : db)
+  : bres * db * faults * list bool * list event :=
   match b with
   | [] => (BOk, d, fs, rs, [])
   | ORestore :: b' =>
@@ -224,8 +298,13 @@ Fixpoint run_body (b : body) (fs rs : list bool) (d : db)
       if restore_done k
       then let '(r, d', fs', rs', es) := run_body b' fs rs1 d1 in (r, d', fs', rs', ERestore k :: es)
       else (BRestoreFail, d1, fs, rs1, [ERestore k])
+  | OInspect m badopt :: b' =>
+      (* if err != nil { return nil, err } -- the deferred restore is what is left to run *)
+      let '(fail, fs1) := pop_read fs in
+      if fail || inspect_fails badopt d then (BInspectFail m, d, fs1, rs, [])
+      else run_body b' fs1 rs d
   | OExec m s :: b' =>
-      let '(fail, fs1) := pop fs in
+      let '(fail, fs1) := pop_exec fs in
       if fail then (BFail m, d, fs1, rs, [EWrite m false])
       else match exec_stmt s d with
            | None => (BFail m, d, fs1, rs, [EWrite m false])
@@ -236,28 +315,39 @@ Fixpoint run_body (b : body) (fs rs : list bool) (d : db)
 
 (** [restore, err := Snapshot(ctx); if err != nil { return }; defer restore(ctx); body]
     -- Executor.Replay, DevDriver.NormalizeSchema/NormalizeRealm, DevLoader.LoadChanges.
-    Snapshot only reads (InspectRealm + one SELECT): no event before the verdict.
+    Snapshot only reads (InspectRealm + one SELECT): no event before the verdict;
+    if that InspectRealm fails the session ends there ([OSnapshotFail]).
     [s_reports]: the deferred closure hands a restore error to the caller.  True
     for Replay, LoadChanges, NormalizeRealm (named result [err]); false for
     NormalizeSchema, whose results are unnamed: the closure assigns a dead
     variable and a failing restore is silently dropped. *)
 Record sess := mkSess { s_body : body; s_reports : bool }.
 
-Definition run_session (s : sess) (fs rs : list bool) (d : db)
-  : outcome * db * list bool * list bool * list event :=
-  if code_clean d then
+Definition run_session (s : sess) (fs : faults) (rs : list bool) (d : db)
+  : outcome * db * faults * list bool * list event :=
+  match snapshot d with
+  | VClean =>
     let '(r, d1, fs1, rs1, es) := run_body (s_body s) fs rs d in
     let '(k, d2, rs2) := run_restore rs1 d1 in
     (match r with
      | BFail m => OFail m            (* errors.Join(err, err2): the statement's error comes first *)
+     | BInspectFail m => OInspectFail m   (* likewise: the inspector's error comes first *)
      | BRestoreFail => ORestoreFail
      | BOk => if restore_done k || negb (s_reports s) then OOk else ORestoreFail
      end, d2, fs1, rs2, es ++ [ERestore k])
-  else (ORefused, d, fs, rs, []).
+  | VNotClean => (ORefused, d, fs, rs, [])
+  | VInspectErr => (OSnapshotFail, d, fs, rs, [])
+  end.
+
+(** the two ways a session declines a database without touching it *)
+Definition declined (o : outcome) : bool :=
+  match o with ORefused | OSnapshotFail => true | _ => false end.
+Definition decline_of (d : db) : outcome :=
+  if unreadable d then OSnapshotFail else ORefused.
 
 (** A command opens its sessions one after the other and stops at the first error. *)
-Fixpoint run_sessions (ss : list sess) (fs rs : list bool) (d : db)
-  : outcome * db * list bool * list bool * list event :=
+Fixpoint run_sessions (ss : list sess) (fs : faults) (rs : list bool) (d : db)
+  : outcome * db * faults * list bool * list event :=
   match ss with
   | [] => (OOk, d, fs, rs, [])
   | b :: ss' =>
@@ -284,32 +374,55 @@ Fixpoint from_last_ckpt (fs : list mfile) : list mfile :=
       if existsb mf_ckpt fs' then from_last_ckpt fs' else f :: fs'
   end.
 
-(** Executor.Replay -> ExecuteN(0) -> Pending (no revisions) -> exec *)
-Definition replay_body (dir : mdir) : body := execs (from_last_ckpt dir).
-Definition replay_sess (dir : mdir) : sess := mkSess (replay_body dir) true.
+(** Executor.Replay -> ExecuteN(0) -> Pending (no revisions: "first run" ->
+    [e.drv.CheckClean], which for SQLite is one more InspectRealm(ctx, nil),
+    *inside* the session and before the first statement; its error, unless a
+    NotCleanError, ends the replay) -> exec; then [return r.ReadState(ctx)]
+    (also when there was no pending file).  [excl]: the StateReader was built
+    with a malformed Exclude pattern. *)
+Definition replay_body (excl : bool) (dir : mdir) : body :=
+  OInspect 0 false :: execs (from_last_ckpt dir) ++ [OInspect 0 excl].
+Definition replay_sess (excl : bool) (dir : mdir) : sess := mkSess (replay_body excl dir) true.
 
 (** ChangeDetector (latestChange: the latest N files are new; GitChangeDetector:
     the first file added since the base branch and everything after it -- the
     harness passes their number) + DevLoader.LoadChanges: base from its last
     checkpoint (DevLoader.base), the new non-checkpoint files (first/next --
-    [first] runs a file of more than 10 statements in one loop: the same
-    ExecContext sequence), then per new checkpoint file restore + next. *)
+    next), then per new checkpoint file restore + inspect + next.
+    Reads: DevLoader.base ends with d.inspect (also with no base file);
+    nextStmts inspects after every statement; [first] -- the first new file
+    when there is no base file at all -- does so only up to 10 statements,
+    a longer file is executed in one loop and inspected once. *)
+Definition stmts_inspected (f : mfile) : body :=
+  flat_map (fun ms => [OExec (fst ms) (snd ms); OInspect (fst ms) false]) (mf_stmts f).
+Definition first_body (f : mfile) : body :=
+  if length (mf_stmts f) <=? 10 then stmts_inspected f else execs [f] ++ [OInspect 0 false].
 Definition lint_body (dir : mdir) (latest : nat) : body :=
   let n := length dir in
   let base := if n <=? latest then [] else firstn (n - latest) dir in
   let feat := if n <=? latest then dir else skipn (n - latest) dir in
-  execs (from_last_ckpt base)
-  ++ flat_map (fun f => if mf_ckpt f then [] else execs [f]) feat
-  ++ flat_map (fun f => if mf_ckpt f then ORestore :: execs [f] else []) feat.
+  execs (from_last_ckpt base) ++ [OInspect 0 false]
+  ++ match feat with
+     | [] => []
+     | f0 :: rest =>
+         (if mf_ckpt f0 then [] else match base with [] => first_body f0 | _ :: _ => stmts_inspected f0 end)
+         ++ flat_map (fun f => if mf_ckpt f then [] else stmts_inspected f) rest
+     end
+  ++ flat_map (fun f => if mf_ckpt f then ORestore :: OInspect 0 false :: stmts_inspected f else []) feat.
 Definition lint_sess (dir : mdir) (latest : nat) : sess := mkSess (lint_body dir latest) true.
 
 (** HCL desired state: tables with their indexes; NormalizeSchema/NormalizeRealm
-    apply AddTable changes = CREATE TABLE followed by its CREATE INDEXes. *)
-Record htable := mkHTable { ht_m : nat; ht_name : bytes; ht_idx : list (nat * bytes) }.
+    apply AddTable changes = CREATE TABLE followed by its CREATE INDEXes.
+    [ht_unins]: the table has a column type SQLite accepts and the inspector
+    cannot parse.  After ApplyChanges both inspect the result (NormalizeRealm:
+    InspectRealm(ctx, opts); NormalizeSchema: InspectSchema(ctx, "", nil); its
+    earlier InspectSchema has Mode InspectSchemas and reads no table). *)
+Record htable := mkHTable { ht_m : nat; ht_name : bytes; ht_idx : list (nat * bytes); ht_unins : bool }.
 
 Definition normalize_body (ts : list htable) : body :=
-  flat_map (fun t => OExec (ht_m t) (SCreateTable (ht_name t))
-                     :: map (fun mi => OExec (fst mi) (SCreateIndex (snd mi) (ht_name t))) (ht_idx t)) ts.
+  flat_map (fun t => OExec (ht_m t) (if ht_unins t then SCreateTableU (ht_name t) else SCreateTable (ht_name t))
+                     :: map (fun mi => OExec (fst mi) (SCreateIndex (snd mi) (ht_name t))) (ht_idx t)) ts
+  ++ [OInspect 0 false].
 
 (** ** the commands *)
 Inductive source :=
@@ -330,11 +443,13 @@ Inductive command :=
     NormalizeSchema if the dev URL is bound to a schema, else NormalizeRealm. *)
 Inductive normalizer := NoNorm | NormRealm | NormSchema.
 
-(** StateReaderSQL replays at once, inside stateReader(...). *)
-Definition eager (s : source) : list sess :=
+(** StateReaderSQL replays at once, inside stateReader(...); the reader it
+    hands to Replay carries the command's --exclude patterns
+    (SchemaConn/RealmConn with Exclude: cfg.Exclude). *)
+Definition eager (excl : bool) (s : source) : list sess :=
   match s with
-  | SrcSQL ss => [replay_sess [mkMFile false ss]]
-  | SrcDir d => [replay_sess d]
+  | SrcSQL ss => [replay_sess excl [mkMFile false ss]]
+  | SrcDir d => [replay_sess excl d]
   | _ => []
   end.
 
@@ -353,16 +468,19 @@ Definition deferred (norm : normalizer) (s : source) : list sess :=
     target URL; stateReader(to); computeDiff.  schemaInspectRun: stateReader(url);
     r.ReadState.  Planner.checkpoint: current (Replay).
     Every session is closed (its deferred restore has run) before the next
-    one is opened; the only restores inside a session are LoadChanges'. *)
-Definition sessions_of (norm : normalizer) (c : command) (dir : mdir) (from to : source) : list sess :=
+    one is opened; the only restores inside a session are LoadChanges'.
+    [excl]: the command was given a malformed --exclude pattern (only schema
+    inspect/apply/diff take the flag; the replay of the migration directory
+    itself -- migrate validate/diff, Planner.current -- reads without options). *)
+Definition sessions_of (norm : normalizer) (c : command) (excl : bool) (dir : mdir) (from to : source) : list sess :=
   match c with
-  | CValidate => [replay_sess dir]
+  | CValidate => [replay_sess false dir]
   | CLint n => [lint_sess dir n]
-  | CDiff => eager to ++ [replay_sess dir] ++ deferred norm to
-  | CSchemaDiff => eager from ++ eager to ++ deferred norm from ++ deferred norm to
-  | CSchemaApply => eager to ++ deferred norm to
-  | CSchemaInspect => eager from ++ deferred norm from
-  | CCheckpoint => [replay_sess dir]
+  | CDiff => eager false to ++ [replay_sess false dir] ++ deferred norm to
+  | CSchemaDiff => eager excl from ++ eager excl to ++ deferred norm from ++ deferred norm to
+  | CSchemaApply => eager excl to ++ deferred norm to
+  | CSchemaInspect => eager excl from ++ deferred norm from
+  | CCheckpoint => [replay_sess false dir]
   end.
 
 (** the commands that write the migration directory at all *)
@@ -371,9 +489,9 @@ Definition writes_dir (c : command) : bool :=
 Definition is_ok (o : outcome) : bool := match o with OOk => true | _ => false end.
 
 (** [changes]: the plan is not empty (otherwise ErrNoPlan, nothing is written). *)
-Definition run_cmd (norm : normalizer) (c : command) (dir : mdir) (from to : source)
-           (changes : bool) (fs rs : list bool) (d : db) : outcome * db * list event :=
-  let '(o, d', _, _, es) := run_sessions (sessions_of norm c dir from to) fs rs d in
+Definition run_cmd (norm : normalizer) (c : command) (excl : bool) (dir : mdir) (from to : source)
+           (changes : bool) (fs : faults) (rs : list bool) (d : db) : outcome * db * list event :=
+  let '(o, d', _, _, es) := run_sessions (sessions_of norm c excl dir from to) fs rs d in
   (o, d', es ++ (if writes_dir c && is_ok o && changes then [EDirWrite] else [])).
 
 (** ** well-formedness of a database and the observation the driver prints *)
@@ -383,7 +501,7 @@ Definition wf_db (d : db) : Prop :=
 
 Definition obj_eqb (a b : obj) : bool :=
   kind_eqb (o_kind a) (o_kind b) && bytes_eqb (o_name a) (o_name b)
-  && bytes_eqb (o_tbl a) (o_tbl b) && N.eqb (o_rows a) (o_rows b).
+  && bytes_eqb (o_tbl a) (o_tbl b) && N.eqb (o_rows a) (o_rows b) && Bool.eqb (o_insp a) (o_insp b).
 
 Fixpoint db_eqb (a b : db) : bool :=
   match a, b with
@@ -403,7 +521,15 @@ Definition touching (e : event) : bool :=
   | EDirWrite => false
   end.
 
-Definition observe (norm : normalizer) (c : command) (dir : mdir) (from to : source)
-           (changes : bool) (fs rs : list bool) (d : db) : outcome * bool * bool * bool :=
-  let '(o, d', es) := run_cmd norm c dir from to changes fs rs d in
+(** an event that is no failure: a write that succeeded, a RestoreFunc that ran to its end *)
+Definition ok_event (e : event) : bool :=
+  match e with
+  | EWrite _ ok => ok
+  | ERestore k => restore_done k
+  | EDirWrite => false
+  end.
+
+Definition observe (norm : normalizer) (c : command) (excl : bool) (dir : mdir) (from to : source)
+           (changes : bool) (fs : faults) (rs : list bool) (d : db) : outcome * bool * bool * bool :=
+  let '(o, d', es) := run_cmd norm c excl dir from to changes fs rs d in
   (o, db_eqb d d', db_empty d', dir_written es).
